@@ -767,3 +767,50 @@ pub fn replay_py(ctx: &Ctx, s: &PySeq) -> Result<(), Fail> {
         Err(f) => ctx.fail(&mut st, f),
     }
 }
+
+
+/// C10 through the command line: whatever else the invocation does, files it writes must not contain
+/// EXT* unless --allow-ext was given, nor buffer opcodes unless --allow-buffer was given
+pub fn check_cli_flags(ctx: &Ctx, cli: &str, c: &CliCase, idx: usize, st: &mut Stats) -> Result<(), Fail> {
+    use crate::refpvm::optable as t;
+    let dir = format!("{}/work/c10-{}-{}", ctx.verif_dir, std::process::id(), idx);
+    let ro = invoke(ctx, cli, c, &dir);
+    let mut files: Vec<(String, Vec<u8>)> = Vec::new();
+    if let Ok(b) = std::fs::read(format!("{}/one.pkl", dir)) {
+        files.push(("one.pkl".into(), b));
+    }
+    if let Ok(rd) = std::fs::read_dir(format!("{}/out", dir)) {
+        for e in rd.filter_map(|e| e.ok()) {
+            if let Ok(b) = std::fs::read(e.path()) {
+                files.push((e.file_name().to_string_lossy().to_string(), b));
+            }
+        }
+    }
+    let _ = std::fs::remove_dir_all(&dir);
+    if let Err(e) = ro {
+        return Err(Fail::new("harness:invoke", e));
+    }
+    for (name, bytes) in &files {
+        let Ok(ops) = lexer::lex_py(bytes) else {
+            st.label("cli output undecodable (skipped; C04/C13 decide)");
+            continue;
+        };
+        for op in &ops {
+            let code = op.code();
+            let is_ext = [t::EXT1, t::EXT2, t::EXT4].contains(&code);
+            let is_buf = [t::NEXT_BUFFER, t::READONLY_BUFFER].contains(&code);
+            if (is_ext && !c.allow_ext) || (is_buf && !c.allow_buffer) {
+                return ctx.fail(
+                    st,
+                    Fail::new(
+                        format!("cli:{}-without-flag:{}", if is_ext { "ext" } else { "buffer" }, op.info.name),
+                        format!("{}: {} contains {} although {} was not given", c.brief(), name, op.info.name, if is_ext { "--allow-ext" } else { "--allow-buffer" }),
+                    )
+                    .with_output(bytes),
+                );
+            }
+        }
+        st.label(&format!("cli file checked, flags ext={} buffer={}", c.allow_ext as u8, c.allow_buffer as u8));
+    }
+    Ok(())
+}
